@@ -328,6 +328,55 @@ def check_attribute_types(src):
     return em.blk(parse_body(body))
 
 
+ATTRMOD = "stun-types/src/attribute/mod.rs"
+DEC_EXPRS = [
+    ("$d.len()", "$d.length"),
+    ("BigEndian::read_u16(&$d[$a..$b])", "(be16 ($d.getD $a 0) ($d.getD ($a + 1) 0))"),
+    ("BigEndian::read_u16(&$d[$a..])", "(be16 ($d.getD $a 0) ($d.getD ($a + 1) 0))"),
+    ("BigEndian::read_u16($d)", "(be16 ($d.getD 0 0) ($d.getD 1 0))"),
+    ("BigEndian::read_u128(&$d[$a..])", "(beNat (($d.drop $a).take 16))"),
+    ("StunParseError::Truncated { expected: $a, actual: $b }", "(PErr.truncated $a $b)"),
+    ("StunParseError::NotStun", "PErr.notStun"),
+    ("Err($x)", "(Except.error $x)"),
+    ("MAGIC_COOKIE", "magicCookie"),
+]
+
+
+def decoder(src, which):
+    if which == "attr_header":
+        imp = impl_body(src.get(ATTRMOD), r"impl\s+AttributeHeader\s*\{")
+        body = fn_body(imp or "", r"fn\s+parse\s*\(\s*data\s*:\s*&\[u8\]\s*\)\s*->\s*Result<Self,\s*StunParseError>\s*\{")
+        extra = [("Ok(ret)", "(Except.ok ret)"),
+                 ("Self { atype: $t.into(), length: $l }", "($t, $l)")]
+        # the getters used by RawAttribute::from_bytes must be the plain field reads
+        for g, f in (("get_type", "atype"), ("length", "length")):
+            gb = fn_body(imp or "", r"pub\s+fn\s+" + g + r"\s*\(\s*&self\s*\)\s*->\s*\w+\s*\{")
+            if gb is None or re.sub(r"\s+", "", gb) != "self." + f:
+                raise XlateError(f"AttributeHeader::{g} shape")
+    elif which == "raw":
+        imp = impl_body(src.get(ATTRMOD), r"impl\s*<'a>\s*RawAttribute<'a>\s*\{")
+        body = fn_body(imp or "", r"pub\s+fn\s+from_bytes\s*\(\s*data\s*:\s*&'a\s*\[u8\]\s*\)\s*->\s*Result<Self,\s*StunParseError>\s*\{")
+        extra = [("AttributeHeader::parse($d)", "(attrHeaderParse $d)"),
+                 ("header.length() as usize", "header.2"), ("header.length()", "header.2"),
+                 ("Ok(Self { header, value: Data::Borrowed($d[$a..$b].into()) })", "(Except.ok (RawAttr.mk header.1 (($d.take $b).drop $a)))")]
+    elif which == "mtype":
+        imp = impl_body(src.get(MSG), r"impl\s+MessageType\s*\{")
+        body = fn_body(imp or "", r"pub\s+fn\s+from_bytes\s*\(\s*data\s*:\s*&\[u8\]\s*\)\s*->\s*Result<Self,\s*StunParseError>\s*\{")
+        extra = [("Ok(Self($d))", "(Except.ok $d)")]
+    else:
+        imp = impl_body(src.get(MSG), r"impl\s+MessageHeader\s*\{")
+        body = fn_body(imp or "", r"pub\s+fn\s+from_bytes\s*\(\s*data\s*:\s*&\[u8\]\s*\)\s*->\s*Result<Self,\s*StunParseError>\s*\{")
+        extra = [("MessageType::from_bytes($d)", "(msgTypeFromBytes $d)"),
+                 ("Ok(Self { mtype, transaction_id: tid.into(), length: mlength })", "(Except.ok (Header.mk mtype mlength (tidFromU128 tid)))")]
+        dl = fn_body(imp or "", r"pub\s+fn\s+data_length\s*\(\s*&self\s*\)\s*->\s*u16\s*\{")
+        if dl is None or re.sub(r"\s+", "", dl) != "self.length":
+            raise XlateError("MessageHeader::data_length shape")
+    if body is None:
+        raise XlateError(f"decoder {which} not found")
+    em = Emitter(exprs=extra + DEC_EXPRS, state=None, ret="{v}", locals_=["data"])
+    return em.blk(parse_body(body))
+
+
 def req_mut(src, name):
     txt = src.get(AGENT)
     imp = impl_body(txt, r"impl\s*<'a>\s*StunRequestMut<'a>\s*\{")
@@ -428,6 +477,10 @@ def items(src):
     yield ("FnAgent", "agentPollAfter", sig_acc, ap_part("after"), None)
     yield ("FnAgent", "agentPollLoop", "(now : Time) (__ord : List Nat) (s : State) (lowest_wait : Option Time) (timeout cancelled : Option Nat) : State × Out", ap_part("loop"), None)
     yield ("FnAgent", "agentPoll", "(s : State) (now : Time) (ord : List Nat) : State × Out", ap_part("entry"), None)
+    yield ("FnMsg", "attrHeaderParse", "(data : Bytes) : Except PErr (Nat × Nat)", lambda: decoder(src, "attr_header"), None)
+    yield ("FnMsg", "rawFromBytes", "(data : Bytes) : Except PErr RawAttr", lambda: decoder(src, "raw"), None)
+    yield ("FnMsg", "msgTypeFromBytes", "(data : Bytes) : Except PErr Nat", lambda: decoder(src, "mtype"), None)
+    yield ("FnMsg", "headerFromBytes", "(data : Bytes) : Except PErr Header", lambda: decoder(src, "header"), None)
     yield ("FnMsg", "iterNext", "(data : Bytes) (__f : Nat) (st : IterSt) : IterSt × Option RawAttr", lambda: iter_next(src), None)
     mfb = {}
     def mfb_part(k):
